@@ -135,6 +135,89 @@ pub fn built_names(_run: &Run) -> Acc {
         .reduce(Acc::new, Acc::merge)
 }
 
+/// programmatically built queries beyond what the parser lets through: every function-call text of the nesting family
+/// that is grammatical but ill-typed (non-singular arguments of length / match / search, logical values where nodes
+/// are expected, ...) is built directly from the public model types and evaluated: Ok or Err, never a panic.
+/// Guard: for the valid sentence set the builder must produce exactly the tree the parser produces.
+pub fn built_queries(_run: &Run) -> Result<Acc, String> {
+    use crate::model::parse::{rfc_parse, rfc_parse_dev, PDev};
+    use rayon::prelude::*;
+    // guard
+    let mut bad = 0;
+    let mut guarded = 0;
+    for q in crate::gen::sentences::sentences(false) {
+        let text = crate::model::render::query(&q);
+        if let (Some(b), Ok(Ok(p))) = (crate::build::query(&q), imp::parse(&text)) {
+            guarded += 1;
+            if b != p {
+                if bad < 3 {
+                    eprintln!("MACHINERY: built tree differs from the parsed tree for {}:\n  built  {:?}\n  parsed {:?}", text, b, p);
+                }
+                bad += 1;
+            }
+        }
+    }
+    if bad > 0 || guarded < 1000 {
+        return Err(format!("the query builder does not mirror the parser ({} of {} sentences differ)", bad, guarded));
+    }
+    let (l1, l2, ar) = crate::checks::lang::fn_nesting_calls();
+    let panel: Vec<Value> = crate::checks::lang::eval_panel();
+    let ams: Vec<AddrMap> = panel.iter().map(AddrMap::new).collect();
+    let calls: Vec<&String> = l1.iter().chain(l2.iter()).chain(ar.iter()).collect();
+    let acc = calls
+        .par_iter()
+        .map(|call| {
+            let mut acc = Acc::new();
+            for text in [format!("$[?{}]", call), format!("$[?{}==1]", call), format!("$[?!{}]", call), format!("$[?1<={}]", call), format!("$..[?{}&&@]", call)] {
+                let ast = match rfc_parse_dev(&text, PDev { no_function_typecheck: true }) {
+                    Ok((a, _)) => a,
+                    Err(_) => continue,
+                };
+                let ill_typed = rfc_parse(&text).is_err();
+                let jq = match crate::build::query(&ast) {
+                    Some(j) => j,
+                    None => continue,
+                };
+                acc.evals += 1;
+                if ill_typed {
+                    acc.nontrivial += 1;
+                }
+                for (d, am) in panel.iter().zip(ams.iter()) {
+                    if let ImplOut::Panic(p) = imp::run_parsed(&jq, d, am) {
+                        acc.viol(
+                            format!("the programmatically built query {} ({}) panics on {}: {}", text, if ill_typed { "not well-typed: only constructible through the model types" } else { "well-typed" }, d, p),
+                            json!({"kind": "built-query", "class": "built queries (function expressions)", "string": text, "doc": d}),
+                        );
+                        return acc;
+                    }
+                }
+            }
+            acc
+        })
+        .reduce(Acc::new, Acc::merge);
+    Ok(acc)
+}
+
+pub fn replay_built_query(case: &Value, _run: &Run) -> Acc {
+    use crate::model::parse::{rfc_parse_dev, PDev};
+    let mut acc = Acc::new();
+    let text = case["string"].as_str().unwrap_or("$");
+    let doc = &case["doc"];
+    let am = AddrMap::new(doc);
+    let jq = rfc_parse_dev(text, PDev { no_function_typecheck: true }).ok().and_then(|(a, _)| crate::build::query(&a));
+    match jq {
+        None => println!("{} can no longer be built", text),
+        Some(jq) => {
+            let o = imp::run_parsed(&jq, doc, &am);
+            println!("built {:?}\non {} : {}", jq, doc, o.short());
+            if let ImplOut::Panic(p) = o {
+                acc.viol(format!("built query {} panics on {}: {}", text, doc, p), case.clone());
+            }
+        }
+    }
+    acc
+}
+
 pub fn replay_built_name(case: &Value, _run: &Run) -> Acc {
     let mut acc = Acc::new();
     let raw = case["raw"].as_str().unwrap_or("").to_string();
